@@ -8,7 +8,7 @@ STD_ASSUME_PURE = [
 PROPS = {
     "C02": {
         "lean_modules": ["RdestModel.Props.C02", "RdestModel.Props.C02Run"],
-        "cases": {"quick": 21, "thorough": 700},
+        "cases": {"quick": 24, "thorough": 704},
         "rule": "cases = end-to-end runs (the count in `cases`) plus 25 manager histories per run: the C12 event histories on the real Session "
                 "(connect, bitfield, have, choke/unchoke, interest, PieceDone, PieceCancel, kill; end game and normal mode), compared step by step "
                 "with the manager model that T2/T3 are proved on, with T3 (the number of pieces not owned never increases) evaluated on the "
@@ -21,7 +21,7 @@ PROPS = {
                 "1/3 chance at each other), 0..2 extra peers with random pieces that disconnect after 0..2 blocks or in the middle of a Piece message; "
                 "peers write with random segmentation (1 byte .. whole message) and unchoke after a random delay; in 2/3 of the runs one honest peer "
                 "leaves once all pieces are stored, in 1/3 everybody stays; one run in six is a crowd of 2..15 leechers (every piece at exactly one of "
-                "them, all interested in us, all staying: more listed peers than the client connects to at once), one in seven a slow seeder with late, fast twins (the seeder has everything and answers slowly, every other peer has exactly one piece, is slow to accept the connection and then answers at once; the last piece is at the seeder only: the seeder loses the race for the piece it was asked first, is cancelled and must go on with another); observed: SHA-1 of every output file (compared with the model's "
+                "them, all interested in us, all staying: more listed peers than the client connects to at once), one in seven a slow seeder with late, fast twins (the seeder has everything and answers slowly, every other peer has exactly one piece, is slow to accept the connection and then answers at once; the last piece is at the seeder only: the seeder loses the race for the piece it was asked first, is cancelled and must go on with another), one in eight a torrent of 8 or 16 pieces (a bitfield without spare bits); observed: SHA-1 of every output file (compared with the model's "
                 "extractSpec of the content), panics of any task (panic hook), the session still running; distinct = distinct argument lines",
         "assumptions": STD_ASSUME_PURE + ["liveness on the real runtime is observed, not proved: tokio scheduling, TCP, reqwest, timers and the OS are outside the model",
                                            "SHA-1 collision freedom on the torrent's pieces is an explicit hypothesis of T1",
